@@ -33,6 +33,63 @@ def loop_steps_with_other_setups(log):
     return hits
 
 
+def _touches(a, s):
+    """Model/AccfgRules.lean touchesS on the AST"""
+    if s[0] in ("setup", "ghost"):
+        return s[1] == a
+    if s[0] == "call":
+        return bool(s[2])
+    if s[0] == "if":
+        return any(_touches(a, x) for x in s[2]) or any(_touches(a, x) for x in s[3])
+    if s[0] == "for":
+        return any(_touches(a, x) for x in s[5])
+    return False
+
+
+def _uses_outer_block(a, b):
+    """Model/AccfgLoopOverlap.lean usesOuterB: a launch of `a` is reached before the state of `a` is redefined"""
+    for s in b:
+        if _uses_outer(a, s):
+            return True
+        if _touches(a, s):
+            return False
+    return False
+
+
+def _uses_outer(a, s):
+    if s[0] == "launch":
+        return s[1] == a
+    if s[0] == "if":
+        return _uses_outer_block(a, s[2]) or _uses_outer_block(a, s[3])
+    if s[0] == "for":
+        return _uses_outer_block(a, s[5])
+    return False
+
+
+def nested_use_after(body, path, j):
+    """launchGuard of the model rule aborts (`none`) for the setup at index j of the body of the loop at `path`: a NESTED statement
+    behind the setup launches on its state before anything touches that state again"""
+    try:
+        blk = body
+        k = 0
+        while k + 2 < len(path) + 1 and k < len(path) - 1:  # path = [i0, r1, i1, ...]: statement index, region index, ...
+            s, r = blk[path[k]], path[k + 1]
+            blk = s[5] if s[0] == "for" else (s[2] if r == 0 else s[3])
+            k += 2
+        loop = blk[path[-1]]
+        if loop[0] != "for" or loop[5][j][0] != "setup":
+            return False
+        a = loop[5][j][1]
+        for s in loop[5][j + 1:]:
+            if s[0] in ("if", "for") and _uses_outer(a, s):
+                return True
+            if _touches(a, s):
+                return False
+        return False
+    except (IndexError, TypeError):
+        return False
+
+
 class Gen6(ac.Gen):
     """C06 programs: values computed by chains of pure ops from induction variables and outer values."""
 
@@ -287,6 +344,13 @@ class C06(Prop):
                 continue
             if "err" in a:
                 return {"model_error": a["err"]}
+            if a["ok"]["after"] is None and nested_use_after(impl_out["progs"][m["step"]]["prog"]["body"], m["path"], m["j"]):
+                # the real pattern fired although a nested launch runs on the state the matched setup defines: in the real IR that
+                # launch reaches the state through a loop-carried / conditional state value (left by dedup after it elided the
+                # nested setup), which the real guard ("all launches that use the out-state are in the setup's block") does not
+                # see; the erased model cannot tell it from a direct nested use, where the real pattern aborts. Oracle only.
+                self.loop_cov["loop_steps_oracle_only:nested-launch-through-carried-state"] += 1
+                continue
             if a["ok"]["after"] is None:
                 return {"model_error": f"loop-level overlap step {m['step']}: the model rule is not applicable at {m['path']} j={m['j']}", "loop": m}
             real_after = impl_out["progs"][m["step"] + 1]["prog"]["body"]
